@@ -58,6 +58,17 @@ def run(ctx):
                 for o in others:
                     foreign |= alg.atoms_of(o)
                 ctx.ob("C08.no-foreign", f"{tag}:call{k}", not (dep & foreign), f"foreign fraction symbols reaching derivatives: {sorted(map(repr, dep & foreign))}", mloc)
+                own_at = alg.atoms_of(own)
+                leak = []
+                for name, v in kw.items():
+                    if name == "volume_fraction":
+                        continue
+                    for c_ in (v.flat if isinstance(v, np.ndarray) else [v]):
+                        if isinstance(c_, E) and (alg.atoms_of(alg.unfold_all(c_), deep=True) & own_at):
+                            leak.append(name)
+                            break
+                ctx.ob("C08.no-foreign", f"{tag}:call{k}:own fraction enters only as the volume factor", not leak,
+                       f"the phase fraction also reaches the argument(s) {leak}", mloc)
             recs[(assemblage, phase)] = R.deriv_calls[0][1]
     for phase in ("olivine", "enstatite"):
         a, b = recs.get((("olivine", "enstatite"), phase)), recs.get((("enstatite", "olivine"), phase))
@@ -68,6 +79,26 @@ def run(ctx):
     ctx.floor("C08.own-phase", 6)
     ctx.floor("C08.permute", 2)
     shared_state(ctx, mloc)
+    distinct_histories(ctx, mloc)
+
+
+def distinct_histories(ctx, mloc):
+    """Two default-constructed minerals must not share their history lists (no shared mutable default)."""
+    ctx.rule("C08.no-shared-state", "no interpreted function on the update path writes module-level / class-level state; closure state of one update is not shared; "
+                                    "two Mineral objects never share their history lists")
+    I = Interp(ctx.program)
+    cls = public(ctx, I, "pydrex.minerals.Mineral")
+    try:
+        m1 = I.call(cls, (), {"n_grains": 2, "seed": 1})
+        m2 = I.call(cls, (), {"n_grains": 2, "seed": 1})
+    except RaiseSig as r:
+        ctx.ob("C08.no-shared-state", "Mineral(): distinct history lists", False, f"construction raises {r.exc.typename}", mloc)
+        return
+    ok = all(isinstance(m.attrs.get(a), list) for m in (m1, m2) for a in ("fractions", "orientations")) and \
+        m1.attrs["fractions"] is not m2.attrs["fractions"] and m1.attrs["orientations"] is not m2.attrs["orientations"] and \
+        len(m1.attrs["fractions"]) == 1 and len(m2.attrs["fractions"]) == 1
+    ctx.ob("C08.no-shared-state", "Mineral(): distinct history lists", ok,
+           f"history lengths after two constructions: {len(m1.attrs.get('fractions', []))}, {len(m2.attrs.get('fractions', []))}", mloc)
 
 
 def _u(v):
